@@ -19,3 +19,8 @@ pub use pulled_message::*;
 pub use stats::*;
 pub use subscription::*;
 pub use subscription_name::*;
+
+#[cfg(deltio_verif)]
+pub(crate) mod verif_outstanding {
+    pub(crate) use super::outstanding::*;
+}
